@@ -593,8 +593,8 @@ pub struct ModelFaults {
 
 pub struct VModel {
     pub target: Arc<Target>,
-    /// evaluation log per chain (-1: controller)
-    pub logs: Mutex<HashMap<i64, SharedLog>>,
+    /// evaluation log per chain (-1: controller); shared so that the runner can read it after the model moved
+    pub logs: Arc<Mutex<HashMap<i64, SharedLog>>>,
     pub keep_records: bool,
     pub faults: ModelFaults,
     /// fault plans per chain
@@ -609,7 +609,7 @@ impl VModel {
     pub fn new(target: Target) -> Self {
         VModel {
             target: Arc::new(target),
-            logs: Mutex::new(HashMap::new()),
+            logs: Arc::new(Mutex::new(HashMap::new())),
             keep_records: false,
             faults: ModelFaults::default(),
             plans: HashMap::new(),
